@@ -7,6 +7,9 @@ Exit status 0 always (this is a self-validation report, not a property check).""
 import sys, os, subprocess, shutil, tempfile, json, re
 from concurrent.futures import ThreadPoolExecutor
 ENV = dict(os.environ, GOFLAGS="-mod=mod", GOPROXY="off", GOSUMDB="off", GOTOOLCHAIN="local")
+sys.path.insert(0, os.path.dirname(os.path.abspath(__file__)))
+from scratch import scratch_gocache
+ENV["GOCACHE"] = scratch_gocache(ENV)
 ENV.pop("GOWORK", None)
 SEEDED = "/verif/seeded"
 
@@ -21,7 +24,7 @@ def one(seed):
         r = subprocess.run(["go", "build", "./..."], cwd=d, env=ENV, capture_output=True, text=True)
         if r.returncode != 0:
             return seed, "DOES-NOT-COMPILE", []
-        r = subprocess.run(["/verif/bin/hclverif", "-property", prop, "-repo", d, "-no-evidence"], capture_output=True, text=True)
+        r = subprocess.run(["/verif/bin/hclverif", "-property", prop, "-repo", d, "-no-evidence"], capture_output=True, text=True, env=ENV)
         rules = sorted(set(re.findall(r"\[violated\] ([A-Za-z0-9.\-]+)\|", r.stdout)))
         nv = len(re.findall(r"^VIOLATION ", r.stdout, re.M))
         return seed, ("CAUGHT" if nv > 0 and r.returncode == 1 else "MISSED"), rules
